@@ -6,14 +6,23 @@ From PW.proofs Require Import P_vec P_mat.
 Import ListNotations.
 Local Open Scope R_scope.
 
+(* lazy, not cbv: cbv with a delta list took over a minute on terms with rod_jac_row (call-by-value duplicates work) *)
 Ltac runf :=
-  cbv [rod_matrix rod_jac_row rod_drrt rod_dskew m3add m3scale m3outer m3skew rod_m1 vget
-       rod_antisym rod_half nfrac];
-  munf.
+  lazy [rod_matrix rod_jac_row rod_drrt rod_dskew m3add m3scale m3outer m3skew rod_m1 vget
+       rod_antisym rod_half nfrac
+       mmul mtranspose mscale m33to44 mupper3 mtranslation mdiag mapply_pt mapply_vec
+       mapply_w I4 I3 m3mul m3apply m3transpose m3rows m3row0 m3row1 m3row2 m3det mlist m3list
+       vdist vnormalize vnorm vadd vsub vneg vscale vdivs vdot vcross vnorm2 vzero vmul vlist
+       n0 n1 n2 nofZ nadd nsub nmul ndiv nneg nabs nsqrt nltb nleb neqb ROps
+       a00 a01 a02 a10 a11 a12 a20 a21 a22 vx vy vz].
 Ltac runf_in H :=
-  cbv [rod_matrix rod_jac_row rod_drrt rod_dskew m3add m3scale m3outer m3skew rod_m1 vget
-       rod_antisym rod_half nfrac] in H;
-  munf_in H.
+  lazy [rod_matrix rod_jac_row rod_drrt rod_dskew m3add m3scale m3outer m3skew rod_m1 vget
+       rod_antisym rod_half nfrac
+       mmul mtranspose mscale m33to44 mupper3 mtranslation mdiag mapply_pt mapply_vec
+       mapply_w I4 I3 m3mul m3apply m3transpose m3rows m3row0 m3row1 m3row2 m3det mlist m3list
+       vdist vnormalize vnorm vadd vsub vneg vscale vdivs vdot vcross vnorm2 vzero vmul vlist
+       n0 n1 n2 nofZ nadd nsub nmul ndiv nneg nabs nsqrt nltb nleb neqb ROps
+       a00 a01 a02 a10 a11 a12 a20 a21 a22 vx vy vz] in H.
 
 Definition proper (m : mat3 R) : Prop :=
   m3mul ROps (m3transpose m) m = I3 ROps /\ m3mul ROps m (m3transpose m) = I3 ROps /\ m3det ROps m = 1.
